@@ -367,6 +367,9 @@ def check_expand_wrappers(cx: Cx, ob: Ob) -> None:
         _flags_forwarded(ob, fn, t, line, ("strict", "passthrough"))
     if not found:
         ob.undecide("expand has no success return")
+    from .c01 import failure_needs_lookup
+
+    failure_needs_lookup(cx, ob, fn, s, me, "curie")
     # expand_pair
     fn = cx.fn(f"{CONV}.expand_pair", ob.id)
     s = cx.summary(fn, ob.id)
@@ -415,6 +418,7 @@ def check_expand_wrappers(cx: Cx, ob: Ob) -> None:
             ob.violate(fn.qualname, where(fn, line), "expand_all does not pass (prefix, identifier) of parse_curie(curie)", detail="base")
     if not found:
         ob.undecide("expand_all has no success return")
+    failure_needs_lookup(cx, ob, fn, s, me, "curie")
 
 
 def _flags_forwarded(ob: Ob, fn, t, line: int, flags) -> None:
